@@ -1,130 +1,157 @@
 (** C19 - A full SCAN iteration returns every element present throughout it.
     Statements only; proofs in Proofs/ScanFacts.v.  Model: Model/Scan.v (engine.rs scan / hscan /
-    sscan / zscan and commands/scan.rs), tied to /repo by harness/src/c19.rs.
+    sscan / zscan after the repair e3de5de, and commands/scan.rs), tied to /repo by harness/src/c19.rs.
+
+    The cursor is a hash: elements are walked in the order of [hf] (element_hash = FNV-1a in the
+    engine; the theorems hold for ANY hash function with non-negative values, so runs of equal
+    hashes are covered) and a call with cursor c returns the elements with hash >= c of one interval.
 
     Vocabulary (Proofs/ScanFacts.v):
-      scan_core keyof items cursor count pat   one call on the sorted item list (all four commands)
-      iterate keyof pat cnt lists k cursor     calls chained by the returned cursor, the i-th on the
-                                               i-th list with COUNT [cnt i]; result = everything
-                                               returned, and the list at the call that returned 0
-      prefix_stable ...                        between two calls the part of the sorted list before
-                                               the cursor did not change
-      key_visible now d tf k                   k is stored, not expired at [now], of type [tf]
-      scan_static / scan_dynamic               [iterate] on live_keys of one / of successive databases *)
+      scan_core hf keyof items cursor count pat  one call on the collection [items]: (next cursor, elements)
+      scan_inc keyof pat x                       x passes MATCH
+      iterate hf keyof pat cnt lists k cursor    calls chained by the returned cursor, the i-th on the i-th
+                                                 collection with COUNT [cnt i]; (everything returned, finished?)
+      key_visible now d tf k                     k is stored, not expired at [now], of type [tf]
+      scan_iter states pat tf cnt                [iterate] of SCAN over successive (time, database) states *)
 From Ferrous Require Import Base.Bytes Model.Resp Model.Types Model.Glob Model.Strings Model.Scan
   Proofs.ScanFacts.
 Open Scope Z_scope.
 
-(** 1. termination: the cursor returned is 0 or strictly larger (and inside the list); an
-    iteration over an unchanged list ends within |L| + 1 calls from any cursor *)
-Theorem c19_terminates_measure : forall A (keyof : A -> bytes) items cursor count pat,
-  0 <= cursor -> 0 <= count ->
-  let next := fst (scan_core keyof items cursor count pat) in
-  next = 0 \/ (cursor < next /\ next < len items).
-Proof. intros A. exact (@scan_core_progress A). Qed.
+(** 1. each call covers one interval of hash values completely: with (next, res) it returns exactly
+    the elements of the collection that pass the filter and whose hash is in [cursor, next)
+    ([cursor, infinity) when next = 0); next is 0 or the hash of an element, strictly above the cursor *)
+Theorem c19_call_covers_interval : forall A (hf : A -> Z) (keyof : A -> bytes),
+  (forall x, 0 <= hf x) -> forall items cursor count pat next res,
+  0 <= count -> scan_core hf keyof items cursor count pat = (next, res) ->
+  (forall x, In x res <-> In x items /\ scan_inc keyof pat x = true /\ cursor <= hf x /\ (next = 0 \/ hf x < next)) /\
+  (next = 0 \/ (cursor < next /\ exists y, In y items /\ hf y = next)).
+Proof. intros A hf keyof H. exact (scan_core_page hf keyof H). Qed.
 
-Theorem c19_terminates : forall A (keyof : A -> bytes) pat cnt L,
-  (forall i, 0 <= cnt i) -> forall n k cursor, 0 <= cursor ->
-  (Z.to_nat (len L - cursor) < n)%nat ->
-  exists u, iterate keyof pat cnt (repeat L n) k cursor = (u, Some L).
-Proof. intros A. exact (@iterate_static_finishes A). Qed.
-
-(** 2. static completeness (all four commands iterate [scan_core] over a sorted list): with any
-    COUNT at each call the iteration from cursor 0 returns exactly the items passing MATCH, in
-    order, each once *)
-Theorem c19_static_complete_generic : forall A (keyof : A -> bytes) pat cnt L,
-  (forall i, 0 <= cnt i) ->
-  iterate keyof pat cnt (repeat L (S (length L))) 0 0 = (filter (scan_inc keyof pat) L, Some L).
-Proof. intros A. exact (@iterate_static A). Qed.
-
-(** SCAN on a database: exactly the live keys of the requested type that match, each once *)
-Theorem c19_static_complete : forall now d pat tf cnt,
-  (forall i, 0 <= cnt i) -> NoDup (map fst (d_data d)) ->
-  exists keys, scan_static now d pat tf cnt = (keys, Some (live_keys now d tf)) /\ NoDup keys /\
-    forall k, In k keys <-> key_visible now d tf k /\ key_matches pat k = true.
-Proof. exact scan_static_complete. Qed.
-
-(** 3. soundness of every single call, any cursor and COUNT *)
-Theorem c19_sound : forall now d cursor pat tf count k,
-  0 <= cursor -> 0 <= count ->
-  In k (snd (eng_scan now d cursor pat tf count)) -> key_visible now d tf k /\ key_matches pat k = true.
-Proof. exact eng_scan_sound. Qed.
-
-Theorem c19_sound_generic : forall A (keyof : A -> bytes) items cursor count pat x,
-  0 <= cursor -> 0 <= count ->
-  In x (snd (scan_core keyof items cursor count pat)) -> In x items /\ scan_inc keyof pat x = true.
-Proof. intros A. exact (@scan_core_sound A). Qed.
-
-(** 4. modifications between calls.
-    Full statement of the property (FALSE of this design, see c19_concurrent_refuted):
-      forall states pat tf cnt keys Lf k, scan_dynamic states pat tf cnt = (keys, Some Lf) ->
-        (forall st, In st states -> key_visible (fst st) (snd st) tf k) -> key_matches pat k = true ->
-        In k keys.
-    Proved part: when every addition, deletion and expiry between two calls leaves the sorted list
-    before the cursor unchanged (i.e. concerns keys sorting at or after the key at the cursor). *)
-Theorem c19_concurrent_partial : forall states pat tf cnt keys Lf k,
-  (forall i, 0 <= cnt i) -> scan_prefix_stable states pat tf cnt ->
-  scan_dynamic states pat tf cnt = (keys, Some Lf) ->
-  (forall st, In st states -> key_visible (fst st) (snd st) tf k) -> key_matches pat k = true ->
-  In k keys.
-Proof. exact scan_dynamic_partial. Qed.
-
-(** the same with the hypothesis in DESIGN's words: between two calls every key added, deleted or
-    expired sorts at or after the key at the cursor position (scan_order_stable: the keys below it
-    are the same in both states) *)
-Theorem c19_concurrent_partial_by_order : forall states pat tf cnt keys Lf k,
-  (forall i, 0 <= cnt i) -> (forall st, In st states -> NoDup (map fst (d_data (snd st)))) ->
-  scan_order_stable states pat tf cnt ->
-  scan_dynamic states pat tf cnt = (keys, Some Lf) ->
-  (forall st, In st states -> key_visible (fst st) (snd st) tf k) -> key_matches pat k = true ->
-  In k keys.
-Proof. exact scan_dynamic_partial_order. Qed.
-
-Theorem c19_concurrent_partial_generic : forall A (keyof : A -> bytes) pat cnt lists u Lf x,
-  (forall i, 0 <= cnt i) -> prefix_stable keyof pat cnt lists 0 0 ->
-  iterate keyof pat cnt lists 0 0 = (u, Some Lf) ->
-  In x Lf -> scan_inc keyof pat x = true -> In x u.
-Proof. intros A. exact (@iterate_dyn_complete A). Qed.
-
-(** F-19a: keys a b c d; SCAN 0 COUNT 2 -> cursor 2 [a b]; DEL a; SCAN 2 COUNT 2 -> cursor 0 [d]:
-    c is present throughout and never returned *)
-Definition db_of (keys : list String.string) : db :=
-  fold_left (fun d k => set_value 0 d (bs k) (VStr (bs "v")) None) keys empty_db.
-Definition db_abcd : db := db_of ["a"; "b"; "c"; "d"]%string.
-Definition db_bcd : db := snd (eng_delete db_abcd (bs "a")).
-
-Theorem c19_concurrent_refuted :
-  exists states cnt keys Lf k,
-    scan_dynamic states None None cnt = (keys, Some Lf) /\
-    (forall st, In st states -> key_visible (fst st) (snd st) None k) /\
-    key_matches None k = true /\ ~ In k keys.
+(** 2. completeness over ANY interleaving of additions and deletions between the calls (the
+    collections of the successive calls are arbitrary): a complete iteration (cursor 0 ... returned
+    cursor 0) returns every element that is in the collection at every call and passes the filter *)
+Theorem c19_complete : forall A (hf : A -> Z) (keyof : A -> bytes),
+  (forall x, 0 <= hf x) -> forall pat cnt x, (forall i, 0 <= cnt i) -> scan_inc keyof pat x = true ->
+  forall lists u, iterate hf keyof pat cnt lists 0 0 = (u, true) ->
+  (forall L, In L lists -> In x L) -> In x u.
 Proof.
-  exists [(0, db_abcd); (0, db_bcd)], (fun _ => 2), [bs "a"; bs "b"; bs "d"], [bs "b"; bs "c"; bs "d"], (bs "c").
-  split; [vm_compute; reflexivity|]. split; [|split; [reflexivity|]].
-  - intros st [<-|[<-|[]]]; exists {| e_val := VStr (bs "v"); e_exp := None |}; (split; [vm_compute; tauto | reflexivity]).
-  - vm_compute. intuition discriminate.
+  intros A hf keyof H pat cnt x Hc Hi lists u E Hall.
+  exact (iterate_complete hf keyof H pat cnt x Hc Hi lists 0%nat 0 u (H x) E Hall).
 Qed.
 
-(** the same history in which the deleted key sorts after the cursor is complete (non-vacuity of
-    the hypothesis of c19_concurrent_partial) *)
-Example c19_partial_nonvacuous :
-  let states := [(0, db_abcd); (0, snd (eng_delete db_abcd (bs "d")))] in
-  scan_prefix_stable states None None (fun _ => 2) /\
-  scan_dynamic states None None (fun _ => 2) = ([bs "a"; bs "b"; bs "c"], Some [bs "a"; bs "b"; bs "c"]).
-Proof. vm_compute. repeat split. Qed.
+(** 3. soundness: nothing is returned that was not in the collection at the time of some call, or
+    that fails the filter *)
+Theorem c19_sound : forall A (hf : A -> Z) (keyof : A -> bytes),
+  (forall x, 0 <= hf x) -> forall pat cnt x, (forall i, 0 <= cnt i) ->
+  forall lists k cursor u f, iterate hf keyof pat cnt lists k cursor = (u, f) -> In x u ->
+  scan_inc keyof pat x = true /\ exists L, In L lists /\ In x L.
+Proof. intros A hf keyof H pat cnt x Hc. exact (iterate_sound hf keyof H pat cnt x Hc). Qed.
 
-(** 5. SSCAN (HSCAN and ZSCAN have the same two paths over psort): on a live set either the fast
-    path returns every member with cursor 0, or the call is [scan_core] over the sorted members,
-    to which theorems 1-4 apply *)
+(** 4. termination: cursors strictly increase (1); on a collection that no longer changes every call
+    that does not end the iteration strictly shrinks the part not yet covered, so from ANY cursor the
+    iteration ends within (elements with hash >= cursor) + 1 calls - and it returns exactly those
+    elements that pass the filter, in hash order, each once *)
+Theorem c19_terminates_measure : forall A (hf : A -> Z) (keyof : A -> bytes),
+  (forall x, 0 <= hf x) -> forall items cursor count pat next res,
+  0 <= count -> scan_core hf keyof items cursor count pat = (next, res) -> next <> 0 ->
+  (length (from_hash hf next (hsort hf keyof items)) < length (from_hash hf cursor (hsort hf keyof items)))%nat.
+Proof. intros A hf keyof H. exact (scan_core_measure hf keyof H). Qed.
+
+Theorem c19_static_complete_generic : forall A (hf : A -> Z) (keyof : A -> bytes),
+  (forall x, 0 <= hf x) -> forall pat cnt L, (forall i, 0 <= cnt i) ->
+  forall n k cursor, (length (from_hash hf cursor (hsort hf keyof L)) < n)%nat ->
+  iterate hf keyof pat cnt (repeat L n) k cursor =
+  (filter (scan_inc keyof pat) (from_hash hf cursor (hsort hf keyof L)), true).
+Proof. intros A hf keyof H. exact (iterate_static hf keyof H). Qed.
+
+(** 5. SCAN on databases.  One call: *)
+Theorem c19_scan_call : forall now d cursor pat tf count next keys,
+  0 <= count -> eng_scan now d cursor pat tf count = (next, keys) ->
+  (forall k, In k keys <-> key_visible now d tf k /\ key_matches pat k = true /\
+                          cursor <= key_hash k /\ (next = 0 \/ key_hash k < next)) /\
+  (next = 0 \/ (cursor < next /\ exists k, key_visible now d tf k /\ key_hash k = next)).
+Proof. exact eng_scan_page. Qed.
+
+(** a complete SCAN iteration over arbitrary successive database states (any keys added, deleted,
+    expired or retyped in between) returns every key that is visible at every call and matches *)
+Theorem c19_scan_complete : forall states pat tf cnt keys k,
+  (forall i, 0 <= cnt i) -> scan_iter states pat tf cnt = (keys, true) ->
+  (forall st, In st states -> key_visible (fst st) (snd st) tf k) -> key_matches pat k = true ->
+  In k keys.
+Proof. exact scan_iter_complete. Qed.
+
+Theorem c19_scan_sound : forall states pat tf cnt keys f k,
+  (forall i, 0 <= cnt i) -> scan_iter states pat tf cnt = (keys, f) -> In k keys ->
+  key_matches pat k = true /\ exists st, In st states /\ key_visible (fst st) (snd st) tf k.
+Proof. exact scan_iter_sound. Qed.
+
+(** on an unchanged database: exactly the visible keys of the requested type that match, each once *)
+Theorem c19_static_complete : forall now d pat tf cnt,
+  (forall i, 0 <= cnt i) -> NoDup (map fst (d_data d)) ->
+  let L := live_keys now d tf in
+  exists keys, iterate key_hash (fun k => k) pat cnt (repeat L (S (length L))) 0 0 = (keys, true) /\
+    NoDup keys /\ forall k, In k keys <-> key_visible now d tf k /\ key_matches pat k = true.
+Proof. exact scan_static. Qed.
+
+(** 6. HSCAN / SSCAN / ZSCAN on a live collection: the single-call fast path returns everything with
+    cursor 0, otherwise the call is [scan_core] over the fields / members with their FNV-1a hash, to
+    which 1-4 apply *)
 Theorem c19_sscan_call : forall now d key s cursor pat count,
   get_entry d key = Some {| e_val := VSet s; e_exp := None |} ->
   eng_sscan now d key cursor pat count =
-  (Some (if (len s <=? scan_limit count) && (cursor =? 0) && negb (match pat with Some _ => true | None => false end)
-         then (0, bsort s) else scan_core (fun m => m) (bsort s) cursor count pat), d).
+  (Some (if (len s <=? scan_limit count) && (cursor =? 0) && no_pat pat
+         then (0, bsort s) else scan_core key_hash (fun m => m) s cursor count pat), d).
 Proof. exact eng_sscan_live. Qed.
 
-(** non-vacuity / regression examples *)
+Theorem c19_hscan_call : forall now d key h cursor pat count nov,
+  get_entry d key = Some {| e_val := VHash h; e_exp := None |} ->
+  eng_hscan now d key cursor pat count nov =
+  (Some (if (len h <=? scan_limit count) && (cursor =? 0) && no_pat pat
+         then (0, flat_pairs nov (psort h))
+         else (fst (scan_core pair_hash fst h cursor count pat), flat_pairs nov (snd (scan_core pair_hash fst h cursor count pat)))), d).
+Proof. exact eng_hscan_live. Qed.
+
+Theorem c19_zscan_call : forall now d key z cursor pat count,
+  get_entry d key = Some {| e_val := VZSet z; e_exp := None |} ->
+  eng_zscan now d key cursor pat count =
+  (Some (if (len z <=? scan_limit count) && (cursor =? 0) && no_pat pat
+         then (0, psort z) else scan_core pair_hash fst z cursor count pat), d).
+Proof. exact eng_zscan_live. Qed.
+
+(** the hash of the engine is a 64-bit value, so the hypothesis of 1-4 holds and cursors fit u64 *)
+Theorem c19_hash_is_u64 : forall k, 0 <= key_hash k < two64.
+Proof. exact fnv1a_range. Qed.
+
+(** the executed model computes each hash once (sort_by_cached_key); it is the same function *)
+Theorem c19_cached_is_core : forall A (hf : A -> Z) (keyof : A -> bytes) items cursor count pat,
+  scan_core_cached hf keyof items cursor count pat = scan_core hf keyof items cursor count pat.
+Proof. intros A. exact (@scan_core_cached_eq A). Qed.
+
+(** ---- witnesses ---- *)
+Definition db_of (keys : list String.string) : db :=
+  fold_left (fun d k => set_value 0 d (bs k) (VStr (bs "v")) None) keys empty_db.
+Definition db_abcd : db := db_of ["a"; "b"; "c"; "d"]%string.
+
+(** the former F-19a witness (scan-shift, repaired by e3de5de): a b c d; SCAN 0 COUNT 2 -> cursor
+    12638189399578898418 [d a]; DEL d (or a: any key); SCAN <cursor> COUNT 2 -> 0 [c b]: every key
+    that stayed is returned *)
+Example c19_shift_witness_repaired :
+  eng_scan 0 db_abcd 0 None None 2 = (12638189399578898418, [bs "d"; bs "a"]) /\
+  eng_scan 0 (snd (eng_delete db_abcd (bs "d"))) 12638189399578898418 None None 2 = (0, [bs "c"; bs "b"]) /\
+  eng_scan 0 (snd (eng_delete db_abcd (bs "a"))) 12638189399578898418 None None 2 = (0, [bs "c"; bs "b"]) /\
+  scan_iter [(0, db_abcd); (0, snd (eng_delete db_abcd (bs "a")))] None None (fun _ => 2) =
+    ([bs "d"; bs "a"; bs "c"; bs "b"], true).
+Proof. vm_compute. repeat split. Qed.
+
+(** hash ties (forged with a constant hash): a full page still takes the rest of the run, so one
+    call returns the whole run and the next cursor never points inside it *)
+Example c19_ties :
+  scan_core (fun _ : bytes => 7) (fun k => k) [bs "a"; bs "b"; bs "c"] 0 1 None = (0, [bs "a"; bs "b"; bs "c"]) /\
+  scan_core (fun k : bytes => match k with [97] => 3 | [122] => 9 | _ => 7 end) (fun k => k)
+            [bs "z"; bs "c"; bs "b"; bs "a"] 0 2 None = (9, [bs "a"; bs "b"; bs "c"]).
+Proof. vm_compute. split; reflexivity. Qed.
+
 Example c19_static_example :
-  scan_static 0 db_abcd (Some (bs "[a-c]")) (Some (bs "string")) (fun i => Z.of_nat i) =
-  ([bs "a"; bs "b"; bs "c"], Some [bs "a"; bs "b"; bs "c"; bs "d"]).
+  iterate key_hash (fun k => k) (Some (bs "[a-c]")) (fun i => Z.of_nat i)
+          (repeat (live_keys 0 db_abcd (Some (bs "string"))) 5) 0 0 = ([bs "a"; bs "c"; bs "b"], true).
 Proof. vm_compute. reflexivity. Qed.
